@@ -136,6 +136,11 @@ structure PSpec where
   stream   : Nat
   ordering : Nat
   tracks   : List Nat
+  /-- the Period (start snapped to a segment boundary, plus its duration) ends inside the stream it
+  plays: `period.start + period.duration <= stream.duration()`.  Period start and duration are
+  columns nothing refers to, so the model keeps only this verdict; the harness computes it from the
+  stream's timing reference. -/
+  fits     : Bool := true
   deriving DecidableEq, Repr
 
 inductive Op
@@ -315,6 +320,7 @@ def processPeriod (s : St) (mpsPk : Nat) (sp : PSpec) : Option (St × List Nat) 
       | none => none
       | some tf =>
         if tf.rep.isNone then none else
+        if !sp.fits then none else       -- "Period … ends after the end of stream …"
         let r := upsertPeriod s mpsPk sp (findPeriod s mpsPk sp)
         let adps1 := syncTracks s.adps r.1 sp.tracks
         let doomed := (adps1.filter (fun a => a.period == r.1 && !sp.tracks.contains a.track)).map (·.pk)
